@@ -235,6 +235,22 @@ static void check_devices(const char* when)
     }
 }
 
+// C02 at pipeline level: the bytes of a region handed to the client stay as they are until the client unmaps it
+// (or acquire_stop / acquire_abort releases it on the client's behalf: g_mon_epoch)
+static uint64_t g_mon_sum[2];
+static unsigned g_mon_epoch, g_mon_map_epoch[2];
+static uint64_t region_sum(const void* beg, const void* end)
+{
+    uint64_t h = 1469598103934665603ull;
+    for (const uint8_t* p = (const uint8_t*)beg; p < (const uint8_t*)end; ++p) h = (h ^ *p) * 1099511628211ull;
+    return h;
+}
+static void check_region_unchanged(int s, const char* when)
+{
+    if (g_mon_beg[s] && g_mon_map_epoch[s] == g_mon_epoch && region_sum(g_mon_beg[s], g_mon_end[s]) != g_mon_sum[s])
+        oracle("monitor-region-changed-while-mapped stream=%d (%s)", s, when);
+}
+
 static void do_map(int s)
 {
     struct VideoFrame *beg = 0, *end = 0;
@@ -242,8 +258,9 @@ static void do_map(int s)
     enum AcquireStatusCode rc = acquire_map_read(g_rt, (uint32_t)s, &beg, &end);
     if (was_unregistered && rt()->video[s].monitor.reader.id != 0) g_mon_late[s] = g_nfinished >= 1;
     printf("API map %d -> %s", s, rc == AcquireStatus_Ok ? "ok" : "err");
-    if (rc != AcquireStatus_Ok) { printf("\n"); if (!g_mon_beg[s]) oracle("map-read-failed stream=%d", s); return; }
+    if (rc != AcquireStatus_Ok) { printf("\n"); if (!g_mon_beg[s]) oracle("map-read-failed stream=%d", s); check_region_unchanged(s, "refused map"); return; }
     g_mon_beg[s] = beg; g_mon_end[s] = end;
+    g_mon_sum[s] = region_sum(beg, end); g_mon_map_epoch[s] = g_mon_epoch;
     int cam = g_cfg_cam[s];
     printf(" bytes=%zu frames=", (size_t)((uint8_t*)end - (uint8_t*)beg));
     const uint8_t* cur = (const uint8_t*)beg;
@@ -268,6 +285,7 @@ static void do_map(int s)
 static void do_unmap(int s, int nframes)
 {
     size_t consumed = 0;
+    check_region_unchanged(s, "unmap");
     if (g_mon_beg[s]) {
         const uint8_t* cur = (const uint8_t*)g_mon_beg[s];
         const uint8_t* end = (const uint8_t*)g_mon_end[s];
@@ -343,6 +361,7 @@ static void exec_client(const char* op)
         if (rc == AcquireStatus_Ok) g_acq_open = 1;
         printf("API start -> %s\n", rc == AcquireStatus_Ok ? "ok" : "err");
     } else if (!strcmp(op, "stop")) {
+        ++g_mon_epoch;
         enum AcquireStatusCode rc = acquire_stop(g_rt);
         printf("API stop -> %s\n", rc == AcquireStatus_Ok ? "ok" : "err");
         if (g_acq_open) { check_acquisition("stop"); ++g_nfinished; }
@@ -350,6 +369,7 @@ static void exec_client(const char* op)
         g_acq_open = 0;
         check_devices("stop");
     } else if (!strcmp(op, "abort")) {
+        ++g_mon_epoch;
         enum AcquireStatusCode rc = acquire_abort(g_rt);
         printf("API abort -> %s\n", rc == AcquireStatus_Ok ? "ok" : "err");
         if (g_acq_open) { check_acquisition("abort"); ++g_nfinished; }
